@@ -34,7 +34,10 @@ MANIFEST = dict(
          "update/remove lemmas), and what the editor inserts is non-empty given a dictionary without a word for the empty "
          "syllable (proved for the shipped readings). Completeness: for each layout an explicit key-list inverse, checked by "
          "kernel evaluation over all 1415 readings of data/word.src (full for Standard, ET, IBM, Gin-Yieh after the repairs "
-         "F19/F20; known finding F21 pairs excluded for Hsu, ET26, DaChen26, Pinyin). ASCII round trip over the 95 printable "
+         "F19/F20; for Hsu, ET26, DaChen26 and the Pinyin variants the full statement is refuted and the known-finding F21 "
+         "readings are excluded - and proved to be exactly the readings that NO key list enters: an invariant of the "
+         "editor's way of driving the layout + kernel evaluation over all toneless syllables x keys, resp. over all Pinyin "
+         "table-row combinations). ASCII round trip over the 95 printable "
          "characters for the seven non-remapping keyboards. Tie: translator + exhaustive state-space correspondence through "
          "clone() for the seven finite layouts and the keyboards, table-string + random correspondence for Pinyin.",
     note="Trusted: Lean kernel (axioms propext, Classical.choice, Quot.sound only), tools/extract.py, the harness and the "
